@@ -73,10 +73,17 @@ template <size_t... S> using cshape = nmtools_tuple<meta::ct<S>...>;
 std::string handle(const std::string& op, const Args& a) {
     if (op!="castkind") return "unknown-op";
     auto src = get(a,"src"); auto sh = fmt(nats(a,"shape")); auto tag = get(a,"tag"); long long base = integer(a,"base");
+    // two TUs (compile time): -DC20_KSRC=0 fixed_ndarray sources and the row-major constant-shape one, 1 the column-major ones
+#ifndef C20_KSRC
+#define C20_KSRC 0
+#endif
+#if C20_KSRC == 0
     if (src=="fx" && sh=="4")     return from<na::fixed_ndarray<int,4>>(tag, base);
     if (src=="fx" && sh=="2,3")   return from<na::fixed_ndarray<int,2,3>>(tag, base);
     if (src=="cf" && sh=="2,3")   return from<na::ndarray_t<std::array<int,6>, cshape<2,3>>>(tag, base);
+#else
     if (src=="cfc" && sh=="3,2")  return from<na::column_major_ndarray_t<std::array<int,6>, cshape<3,2>>>(tag, base);
     if (src=="cfc" && sh=="2,1,3") return from<na::column_major_ndarray_t<std::vector<int>, cshape<2,1,3>>>(tag, base);
+#endif
     return "unsupported-source";
 }
